@@ -304,7 +304,7 @@ impl Tracker {
     /// A signature of pico's epoch: it changes exactly when some source change advances the
     /// epoch (equal-value writes change neither).
     pub fn epoch_sig(&self) -> u64 {
-        self.cell_version.values().sum::<u64>() + self.single_version[0] + self.single_version[1] + self.counter_version
+        self.cell_version.values().sum::<u64>() + self.single_version[0] + self.single_version[1] + self.counter_version + self.tag_counter_version
     }
 
     /// `intern_ref(&rows(owner)[i])` was called. Mirrors the documented algorithm of
